@@ -39,6 +39,12 @@ impl VacancyMap {
         self.len_bits
     }
 
+    /// Verification hook: the raw blocks, including the bits beyond `len()`. See `crate::verif`.
+    #[cfg(folo_verif)]
+    pub(crate) fn verif_blocks(&self) -> &[BitBlock] {
+        &self.blocks
+    }
+
     /// Resizes the vacancy map to the specified length.
     ///
     /// If the new length is greater than the current length, new bits are set to `initial_value`.
